@@ -292,6 +292,28 @@ class SpM:
         vals = {(rm[i], cm[j]): v for (i, j), v in self.vals.items() if i in rm and j in cm}
         return SpM._from(sh, vals)
 
+    def sort_indices(self):
+        """in place, exactly like scipy: data and indices arrays are permuted (aliases see it)"""
+        if self.shadow.format not in ("csc", "csr"):
+            return
+        if self.shadow.has_sorted_indices:
+            return
+        d = self._materialise()
+        keep = self.shadow.data.copy()
+        self.shadow.data[:] = _np.arange(len(d), dtype=float)
+        self.shadow.has_sorted_indices = False
+        self.shadow.sort_indices()
+        perm = self.shadow.data.astype(int)
+        d[:] = d[perm]
+        self.shadow.data[:] = keep[perm]
+
+    @property
+    def has_sorted_indices(self):
+        return self.shadow.has_sorted_indices
+
+    def asfptype(self):
+        return self
+
     def eliminate_zeros(self):
         raise Unsupported("eliminate_zeros")
 
